@@ -5,10 +5,24 @@ import Rtcp.Spec.All
 import Rtcp.Proofs.ReadLemmas
 import Rtcp.Proofs.ParsersFraming
 import Rtcp.Proofs.ParsersAccessors
+import Rtcp.Proofs.FciDecode
+import Rtcp.Proofs.SdesScan
 
 namespace Rtcp.Proofs
 open Rtcp Rtcp.Impl Rtcp.Spec
+open Rtcp.Proofs.Read Rtcp.Proofs.Acc
 
+namespace Pad
+
+theorem or20_pbit : ∀ b : UInt8, (b ||| 0x20).toNat / 32 % 2 = 1 := by
+  apply u8_forall; decide +kernel
+theorem or20_count : ∀ b : UInt8, (b ||| 0x20).toNat % 32 = b.toNat % 32 := by
+  apply u8_forall; decide +kernel
+theorem or20_version : ∀ b : UInt8, (b ||| 0x20).toNat / 64 = b.toNat / 64 := by
+  apply u8_forall; decide +kernel
+
+end Pad
+open Pad
 
 theorem addPadding_shape (p : Bytes) (n : Nat) (h4 : 4 ≤ p.length) (hn : PadOk p n) :
     (addPadding p n).length = p.length + n ∧
@@ -17,7 +31,409 @@ theorem addPadding_shape (p : Bytes) (n : Nat) (h4 : 4 ≤ p.length) (hn : PadOk
     count (addPadding p n) = count p ∧ version (addPadding p n) = version p ∧
     ptype (addPadding p n) = ptype p ∧
     (lengthField p = p.length → lengthField (addPadding p n) = p.length + n) := by
-  sorry
+  obtain ⟨hp, hn4, hge, hle, hlen⟩ := hn
+  have hn0 : n ≠ 0 := by omega
+  match p, h4 with
+  | b0 :: b1 :: l0 :: l1 :: rest, _ =>
+    simp only [addPadding, hn0, if_false, List.cons_append]
+    refine ⟨?_, ?_, ?_, ?_, ?_, ?_, ?_, ?_⟩
+    · simp; omega
+    · simp
+    · simp only [pbit, List.getD_cons_zero, or20_pbit, decide_true]
+    · simp only [lastByte, List.getLastD_eq_getLast?]
+      rw [← List.cons_append, ← List.cons_append, ← List.cons_append, ← List.cons_append,
+        List.getLast?_append]
+      simp
+    · simp only [count, List.getD_cons_zero, or20_count]
+    · simp only [version, List.getD_cons_zero, or20_version]
+    · simp only [ptype, List.getD_cons_zero, List.getD_cons_succ]
+    · simp only [lengthField, List.getD_cons_zero, List.getD_cons_succ, List.length_cons,
+        Nat.toUInt8, UInt8.toNat_ofNat']
+      have := l0.toNat_lt; have := l1.toNat_lt
+      simp only [List.length_cons] at hlen
+      omega
+
+namespace Pad
+
+theorem getD_drop (bs : Bytes) (k i : Nat) (h : k ≤ i) : bs.getD i 0 = (bs.drop k).getD (i - k) 0 := by
+  simp only [List.getD_eq_getElem?_getD, List.getElem?_drop]
+  rw [show k + (i - k) = i by omega]
+
+theorem range_drop (bs : Bytes) (k a b : Nat) : range (bs.drop k) a b = range bs (k + a) (k + b) := by
+  simp only [range, List.take_drop, List.drop_drop]
+
+theorem range_append_left (A B : Bytes) (a b : Nat) (h : b ≤ A.length) :
+    range (A ++ B) a b = range A a b := by
+  simp only [range, List.take_append_of_le_length h]
+
+/-- everything the transparency proofs need to know about `q = addPadding p n` -/
+structure Facts (p q : Bytes) (n : Nat) : Prop where
+  h4 : 4 ≤ p.length
+  n4 : 4 ≤ n
+  n252 : n ≤ 252
+  len : q.length = p.length + n
+  count : count q = count p
+  getD : ∀ i, 4 ≤ i → i < p.length → q.getD i 0 = p.getD i 0
+  zero : ∀ i, p.length ≤ i → i + 1 < p.length + n → q.getD i 0 = 0
+  range : ∀ a b, 4 ≤ a → a ≤ b → b ≤ p.length → range q a b = range p a b
+  padq : paddingOf q = some n.toUInt8
+  padLenq : padLen q = n
+  padp : paddingOf p = none
+  padLenp : padLen p = 0
+  wf : ∀ min pt, WellFramed min pt p → WellFramed min pt q
+
+theorem toUInt8_toNat (n : Nat) (h : n < 256) : n.toUInt8.toNat = n := by
+  simp only [Nat.toUInt8, UInt8.toNat_ofNat']
+  omega
+
+theorem facts (p : Bytes) (n : Nat) (h4 : 4 ≤ p.length) (hn : PadOk p n) :
+    Facts p (addPadding p n) n := by
+  obtain ⟨hlen, hdrop, hpb, hlast, hcount, hver, hpt, hlf⟩ := addPadding_shape p n h4 hn
+  obtain ⟨hp, hn4, hge, hle, hmax⟩ := hn
+  have hdl : (p.drop 4).length = p.length - 4 := List.length_drop
+  have hnn : n.toUInt8.toNat = n := toUInt8_toNat n (by omega)
+  have hpq : paddingOf (addPadding p n) = some n.toUInt8 := by
+    simp only [paddingOf, hpb, if_true, hlast]
+  have hpp : paddingOf p = none := by
+    simp only [paddingOf, hp, Bool.false_eq_true, if_false]
+  refine ⟨h4, hge, hle, hlen, hcount, ?_, ?_, ?_, hpq, ?_, hpp, ?_, ?_⟩
+  · intro i h4i hi
+    rw [getD_drop _ 4 i h4i, getD_drop p 4 i h4i, hdrop, List.append_assoc]
+    simp only [List.getD_eq_getElem?_getD]
+    rw [List.getElem?_append_left (by omega)]
+  · intro i hi1 hi2
+    rw [getD_drop _ 4 i (by omega), hdrop]
+    simp only [List.getD_eq_getElem?_getD]
+    rw [List.getElem?_append_left (by simp; omega), List.getElem?_append_right (by omega)]
+    rw [List.getElem?_replicate]
+    simp only [List.length_drop]
+    split <;> rfl
+  · intro a b ha hab hb
+    obtain ⟨a', rfl⟩ : ∃ a', a = 4 + a' := ⟨a - 4, by omega⟩
+    obtain ⟨b', rfl⟩ : ∃ b', b = 4 + b' := ⟨b - 4, by omega⟩
+    rw [← range_drop, ← range_drop, hdrop, List.append_assoc, range_append_left _ _ _ _ (by omega)]
+  · simp only [padLen, hpq, Option.getD_some, hnn]
+  · simp only [padLen, hpp, Option.getD_none]; rfl
+  · intro min pt hw
+    obtain ⟨hm, _, hv, ht, hl, _⟩ := (wellFramed_iff min pt p).mp hw
+    refine (wellFramed_iff min pt _).mpr ⟨by omega, by omega, by rw [hver, hv], by rw [hpt, ht], ?_, ?_⟩
+    · rw [hlf hl, hlen]
+    · intro _
+      rw [hlast]
+      intro h0
+      rw [h0] at hnn
+      simp at hnn
+      omega
+
+
+namespace Facts
+variable {p q : Bytes} {n : Nat}
+
+theorem u8At_eq (F : Facts p q n) (i : Nat) (h1 : 4 ≤ i) (h2 : i < p.length) : u8At q i = u8At p i := by
+  unfold u8At
+  rw [F.getD i h1 h2]
+
+theorem u32At_eq (F : Facts p q n) (i : Nat) (h1 : 4 ≤ i) (h2 : i + 4 ≤ p.length) :
+    u32At q i = u32At p i := by
+  unfold u32At u16At
+  rw [F.u8At_eq i h1 (by omega), F.u8At_eq (i + 1) (by omega) (by omega),
+    F.u8At_eq (i + 2) (by omega) (by omega), F.u8At_eq (i + 2 + 1) (by omega) (by omega)]
+
+theorem u64At_eq (F : Facts p q n) (i : Nat) (h1 : 4 ≤ i) (h2 : i + 8 ≤ p.length) :
+    u64At q i = u64At p i := by
+  unfold u64At
+  rw [F.u32At_eq i h1 (by omega), F.u32At_eq (i + 4) (by omega) (by omega)]
+
+end Facts
+
+theorem sr_pad {ε : Type} {p q : Bytes} {n : Nat} (F : Facts p q n) (h : Sr.parse p = .ok p) :
+    Sr.parse q = .ok q ∧ (Sr.padding q : R ε (Option UInt8)) = .ok (some n.toUInt8) ∧
+    (Sr.ssrc q : R ε UInt32) = Sr.ssrc p ∧ (Sr.ntp q : R ε UInt64) = Sr.ntp p ∧
+    (Sr.rtp q : R ε UInt32) = Sr.rtp p ∧ (Sr.packetCount q : R ε UInt32) = Sr.packetCount p ∧
+    (Sr.octetCount q : R ε UInt32) = Sr.octetCount p ∧ (Sr.nReports q : R ε UInt8) = Sr.nReports p ∧
+    (Sr.reportBlocks q : R ε (List Bytes)) = Sr.reportBlocks p := by
+  obtain ⟨-, hw, hc⟩ := (sr_parse_ok_iff p p).mp h
+  obtain ⟨hm, -⟩ := (wellFramed_iff 28 200 p).mp hw
+  have hq : Sr.parse q = .ok q :=
+    (sr_parse_ok_iff q q).mpr ⟨rfl, F.wf _ _ hw, by rw [F.count, F.len]; omega⟩
+  obtain ⟨a1, a2, a3, a4, a5, a6, a7, a8⟩ := sr_accessors (ε := ε) p h
+  obtain ⟨b1, b2, b3, b4, b5, b6, b7, b8⟩ := sr_accessors (ε := ε) q hq
+  refine ⟨hq, ?_, ?_, ?_, ?_, ?_, ?_, ?_, ?_⟩
+  · rw [b7, F.padq]
+  · rw [a1, b1, F.u32At_eq 4 (by omega) (by omega)]
+  · rw [a2, b2, F.u64At_eq 8 (by omega) (by omega)]
+  · rw [a3, b3, F.u32At_eq 16 (by omega) (by omega)]
+  · rw [a4, b4, F.u32At_eq 20 (by omega) (by omega)]
+  · rw [a5, b5, F.u32At_eq 24 (by omega) (by omega)]
+  · rw [a6, b6, F.count]
+  · rw [a8, b8, F.count]
+    refine congrArg R.ok (List.map_congr_left ?_)
+    intro i hi
+    have : i < count p := List.mem_range.mp hi
+    exact F.range _ _ (by omega) (by omega) (by omega)
+
+theorem rr_pad {ε : Type} {p q : Bytes} {n : Nat} (F : Facts p q n) (h : Rr.parse p = .ok p) :
+    Rr.parse q = .ok q ∧ (Rr.padding q : R ε (Option UInt8)) = .ok (some n.toUInt8) ∧
+    (Rr.ssrc q : R ε UInt32) = Rr.ssrc p ∧ (Rr.nReports q : R ε UInt8) = Rr.nReports p ∧
+    (Rr.reportBlocks q : R ε (List Bytes)) = Rr.reportBlocks p := by
+  obtain ⟨-, hw, hc⟩ := (rr_parse_ok_iff p p).mp h
+  obtain ⟨hm, -⟩ := (wellFramed_iff 8 201 p).mp hw
+  have hq : Rr.parse q = .ok q :=
+    (rr_parse_ok_iff q q).mpr ⟨rfl, F.wf _ _ hw, by rw [F.count, F.len]; omega⟩
+  obtain ⟨a1, a2, a3, a4⟩ := rr_accessors (ε := ε) p h
+  obtain ⟨b1, b2, b3, b4⟩ := rr_accessors (ε := ε) q hq
+  refine ⟨hq, ?_, ?_, ?_, ?_⟩
+  · rw [b3, F.padq]
+  · rw [a1, b1, F.u32At_eq 4 (by omega) (by omega)]
+  · rw [a2, b2, F.count]
+  · rw [a4, b4, F.count]
+    refine congrArg R.ok (List.map_congr_left ?_)
+    intro i hi
+    have : i < count p := List.mem_range.mp hi
+    exact F.range _ _ (by omega) (by omega) (by omega)
+
+theorem bye_pad {ε : Type} {p q : Bytes} {n : Nat} (F : Facts p q n) (h : Bye.parse p = .ok p) :
+    Bye.parse q = .ok q ∧ (Bye.padding q : R ε (Option UInt8)) = .ok (some n.toUInt8) ∧
+    (Bye.ssrcs q : R ε (List UInt32)) = Bye.ssrcs p ∧
+    (Bye.reason q : R ε (Option Slice)) = Bye.reason p := by
+  obtain ⟨-, hw, hc, hr⟩ := (bye_parse_ok_iff p p).mp h
+  have hn4 := F.n4
+  have hq : Bye.parse q = .ok q := by
+    refine (bye_parse_ok_iff q q).mpr ⟨rfl, F.wf _ _ hw, by rw [F.count, F.len]; omega, ?_⟩
+    rw [F.count, F.len]
+    intro _
+    by_cases hlt : 4 + 4 * count p < p.length
+    · rw [F.u8At_eq _ (by omega) hlt]
+      have := hr hlt
+      omega
+    · have e : 4 + 4 * count p = p.length := by omega
+      rw [e]
+      unfold u8At
+      rw [F.zero p.length (Nat.le_refl _) (by omega)]
+      show p.length + 1 + 0 ≤ p.length + n
+      omega
+  obtain ⟨a1, a2, a3, a4⟩ := bye_accessors (ε := ε) p h
+  obtain ⟨b1, b2, b3, b4⟩ := bye_accessors (ε := ε) q hq
+  refine ⟨hq, ?_, ?_, ?_⟩
+  · rw [b2, F.padq]
+  · rw [a1, b1, F.count]
+    refine congrArg R.ok (List.map_congr_left ?_)
+    intro i hi
+    have : i < count p := List.mem_range.mp hi
+    rw [F.u32At_eq _ (by omega) (by omega)]
+  · simp only [] at a3 b3
+    rw [a3, b3, F.count, F.len, F.padLenq, F.padLenp]
+    by_cases hle : p.length ≤ 4 + 4 * count p + 1
+    · rw [if_pos (by omega), if_pos (by omega)]
+    · rw [if_neg (by omega), if_neg (by omega)]
+      have := hr (by omega)
+      rw [F.u8At_eq _ (by omega) (by omega), F.range _ _ (by omega) (by omega) this]
+
+theorem app_pad {ε : Type} {p q : Bytes} {n : Nat} (F : Facts p q n) (h : App.parse p = .ok p) :
+    App.parse q = .ok q ∧ (App.padding q : R ε (Option UInt8)) = .ok (some n.toUInt8) ∧
+    (App.ssrc q : R ε UInt32) = App.ssrc p ∧ (hCount q : R ε UInt8) = hCount p ∧
+    (App.name q : R ε Bytes) = App.name p ∧ (App.data q : R ε Slice) = App.data p := by
+  obtain ⟨-, hw, hc⟩ := (app_parse_ok_iff p p).mp h
+  obtain ⟨hm, -⟩ := (wellFramed_iff 12 204 p).mp hw
+  have hq : App.parse q = .ok q :=
+    (app_parse_ok_iff q q).mpr ⟨rfl, F.wf _ _ hw, by rw [F.padLenq, F.len]; omega⟩
+  obtain ⟨a1, a2, a3, a4, -⟩ := app_accessors (ε := ε) p h
+  obtain ⟨b1, b2, b3, b4, -⟩ := app_accessors (ε := ε) q hq
+  refine ⟨hq, ?_, ?_, ?_, ?_, ?_⟩
+  · rw [b3, F.padq]
+  · rw [a1, b1, F.u32At_eq 4 (by omega) (by omega)]
+  · rw [hCount_ok q (by rw [F.len]; omega), hCount_ok p (by omega), F.count]
+  · rw [a2, b2, F.range _ _ (by omega) (by omega) (by omega)]
+  · rw [a4, b4, F.padLenq, F.padLenp, F.len, Nat.add_sub_cancel, Nat.sub_zero,
+      F.range _ _ (by omega) (by omega) (Nat.le_refl _)]
+
+theorem fb_pad {ε : Type} {p q : Bytes} {n : Nat} (F : Facts p q n) (k : FbKind)
+    (h : Fb.parse k p = .ok p) :
+    Fb.parse k q = .ok q ∧ (Fb.padding q : R ε (Option UInt8)) = .ok (some n.toUInt8) ∧
+    (Fb.senderSsrc q : R ε UInt32) = Fb.senderSsrc p ∧ (Fb.mediaSsrc q : R ε UInt32) = Fb.mediaSsrc p ∧
+    (hCount q : R ε UInt8) = hCount p ∧
+    (∀ f : Fb.FciType, Fb.parseFci k f q = Fb.parseFci k f p) := by
+  obtain ⟨-, hw, hc⟩ := (fb_parse_ok_iff k p p).mp h
+  obtain ⟨hm, -⟩ := (wellFramed_iff 12 k.pt p).mp hw
+  have hq : Fb.parse k q = .ok q :=
+    (fb_parse_ok_iff k q q).mpr ⟨rfl, F.wf _ _ hw, by rw [F.padLenq, F.len]; omega⟩
+  obtain ⟨a1, a2, a3⟩ := fb_accessors (ε := ε) k p h
+  obtain ⟨b1, b2, b3⟩ := fb_accessors (ε := ε) k q hq
+  refine ⟨hq, ?_, ?_, ?_, ?_, ?_⟩
+  · rw [b3, F.padq]
+  · rw [a1, b1, F.u32At_eq 4 (by omega) (by omega)]
+  · rw [a2, b2, F.u32At_eq 8 (by omega) (by omega)]
+  · rw [hCount_ok q (by rw [F.len]; omega), hCount_ok p (by omega), F.count]
+  · intro f
+    rw [parseFci_eq k f q hq, parseFci_eq k f p h, F.count, F.padLenq, F.padLenp, F.len,
+      Nat.add_sub_cancel, Nat.sub_zero, F.range _ _ (by omega) (by omega) (Nat.le_refl _)]
+
+theorem custom_body_ok {ε : Type} (pt : UInt8) (min : Nat) (h4 : 4 ≤ min) (bs : Bytes)
+    (h : Custom.parse pt min bs = .ok bs) :
+    (Custom.padding bs : R ε (Option UInt8)) = .ok (paddingOf bs) ∧
+    (Custom.body bs : R ε Slice) = .ok ⟨4, range bs 4 (bs.length - padLen bs)⟩ := by
+  obtain ⟨-, hw, hc⟩ := (custom_parse_ok_iff pt min h4 bs bs).mp h
+  obtain ⟨hm, hl4, -, -, hl, -⟩ := (wellFramed_iff min pt bs).mp hw
+  refine ⟨parsePadding_ok bs hl4 hl, ?_⟩
+  have hp : ((paddingOf bs).getD 0).toNat = padLen bs := rfl
+  simp only [Custom.body, parsePadding_ok bs hl4 hl, R.ok_bind, hp, usub_ok bs.length (padLen bs) (by omega)]
+  rw [sliceS_ok 0 bs 4 _ ⟨by omega, by omega⟩]
+
+theorem custom_pad {ε : Type} {p q : Bytes} {n : Nat} (F : Facts p q n) (pt : UInt8) (min : Nat)
+    (h4 : 4 ≤ min) (h : Custom.parse pt min p = .ok p) :
+    Custom.parse pt min q = .ok q ∧ (Custom.padding q : R ε (Option UInt8)) = .ok (some n.toUInt8) ∧
+    (Custom.body q : R ε Slice) = Custom.body p := by
+  obtain ⟨-, hw, hc⟩ := (custom_parse_ok_iff pt min h4 p p).mp h
+  obtain ⟨hm, -⟩ := (wellFramed_iff min pt p).mp hw
+  have hq : Custom.parse pt min q = .ok q :=
+    (custom_parse_ok_iff pt min h4 q q).mpr ⟨rfl, F.wf _ _ hw, by rw [F.padLenq, F.len]; omega⟩
+  obtain ⟨a1, a2⟩ := custom_body_ok (ε := ε) pt min h4 p h
+  obtain ⟨b1, b2⟩ := custom_body_ok (ε := ε) pt min h4 q hq
+  refine ⟨hq, ?_, ?_⟩
+  · rw [b1, F.padq]
+  · rw [a2, b2, F.padLenq, F.padLenp, F.len, Nat.add_sub_cancel, Nat.sub_zero,
+      F.range _ _ (by omega) (by omega) (Nat.le_refl _)]
+
+
+theorem chunkLoop_congr (d d' : Bytes) (ce off : Nat) (acc : List SdesChunk)
+    (h : ∀ o, off ≤ o → o < ce → (slice d o ce : R ParseError Bytes) = slice d' o ce) :
+    Sdes.chunkLoop d ce off acc = Sdes.chunkLoop d' ce off acc := by
+  fun_induction Sdes.chunkLoop d ce off acc with
+  | case1 off acc hlt s hs ck e hp ih =>
+    have hge := Sdes.chunk_consumed hp
+    rw [ih (fun o ho => h o (by omega))]
+    symm
+    rw [Sdes.chunkLoop]
+    rw [h off (Nat.le_refl _) hlt] at hs
+    simp only [hlt, dite_true]
+    split
+    · rename_i s' hs'
+      rw [hs] at hs'
+      cases hs'
+      split
+      · rename_i c' e' hp'
+        rw [hp] at hp'
+        cases hp'
+        rfl
+      · rename_i er hp'
+        rw [hp] at hp'
+        cases hp'
+      · rename_i hp'
+        rw [hp] at hp'
+        cases hp'
+    · rename_i er hs'
+      rw [hs] at hs'
+      cases hs'
+    · rename_i hs'
+      rw [hs] at hs'
+      cases hs'
+  | case2 off acc hlt s hs er hp =>
+    symm
+    rw [Sdes.chunkLoop]
+    rw [h off (Nat.le_refl _) hlt] at hs
+    simp only [hlt, dite_true]
+    split
+    · rename_i s' hs'
+      rw [hs] at hs'
+      cases hs'
+      split
+      · rename_i c' e' hp'
+        rw [hp] at hp'
+        cases hp'
+      · rename_i er hp'
+        rw [hp] at hp'
+        cases hp'
+        rfl
+      · rename_i hp'
+        rw [hp] at hp'
+        cases hp'
+    · rename_i er hs'
+      rw [hs] at hs'
+      cases hs'
+    · rename_i hs'
+      rw [hs] at hs'
+      cases hs'
+  | case3 off acc hlt s hs hp =>
+    symm
+    rw [Sdes.chunkLoop]
+    rw [h off (Nat.le_refl _) hlt] at hs
+    simp only [hlt, dite_true]
+    split
+    · rename_i s' hs'
+      rw [hs] at hs'
+      cases hs'
+      split
+      · rename_i c' e' hp'
+        rw [hp] at hp'
+        cases hp'
+      · rename_i er hp'
+        rw [hp] at hp'
+        cases hp'
+      · rfl
+    · rename_i er hs'
+      rw [hs] at hs'
+      cases hs'
+    · rfl
+  | case4 off acc hlt er hs =>
+    symm
+    rw [Sdes.chunkLoop]
+    rw [h off (Nat.le_refl _) hlt] at hs
+    simp only [hlt, dite_true]
+    split
+    · rename_i s' hs'
+      rw [hs] at hs'
+      cases hs'
+    · rename_i er hs'
+      rw [hs] at hs'
+      cases hs'
+      rfl
+    · rename_i hs'
+      rw [hs] at hs'
+      cases hs'
+  | case5 off acc hlt hs =>
+    symm
+    rw [Sdes.chunkLoop]
+    rw [h off (Nat.le_refl _) hlt] at hs
+    simp only [hlt, dite_true]
+    split
+    · rename_i s' hs'
+      rw [hs] at hs'
+      cases hs'
+    · rename_i er hs'
+      rw [hs] at hs'
+      cases hs'
+    · rfl
+  | case6 off acc hge =>
+    rw [Sdes.chunkLoop]
+    simp only [hge, dite_false]
+
+
+theorem sdes_pad {ε : Type} {p q : Bytes} {n : Nat} (F : Facts p q n) (v : Sdes)
+    (h : Sdes.parse p = .ok v) :
+    ∃ v', Sdes.parse q = .ok v' ∧ v'.data = q ∧ v'.chunks = v.chunks ∧
+      (Sdes.padding v' : R ε (Option UInt8)) = .ok (some n.toUInt8) := by
+  obtain ⟨hd, hw, hpl, -, -⟩ := sdes_parse_accepts p v h
+  have hwq := F.wf _ _ hw
+  obtain ⟨-, hq4, -, -, hlq, -⟩ := (wellFramed_iff 4 202 q).mp hwq
+  have h4 := F.h4
+  have hn4 := F.n4
+  rw [SdesAux.sdes_parse_framed p hw, F.padLenp] at h
+  have hcl : Sdes.chunkLoop q p.length 4 [] = Sdes.chunkLoop p p.length 4 [] := by
+    apply chunkLoop_congr
+    intro o ho1 ho2
+    rw [slice_ok q o p.length ⟨by omega, by rw [F.len]; omega⟩,
+      slice_ok p o p.length ⟨by omega, Nat.le_refl _⟩, F.range _ _ ho1 (by omega) (Nat.le_refl _)]
+  rw [if_neg (by omega), Nat.sub_zero] at h
+  obtain ⟨cs, hcs, hv⟩ := bind_eq_ok _ _ _ h
+  cases hv
+  refine ⟨⟨q, cs⟩, ?_, rfl, rfl, ?_⟩
+  · rw [SdesAux.sdes_parse_framed q hwq, F.padLenq, F.len, if_neg (by omega), Nat.add_sub_cancel, hcl, hcs]
+    rfl
+  · show (parsePadding q : R ε (Option UInt8)) = _
+    rw [parsePadding_ok q hq4 hlq, F.padq]
+
+end Pad
+open Pad
 
 theorem sr_pad_transparent {ε : Type} (p : Bytes) (n : Nat) (h : Sr.parse p = .ok p) (hn : PadOk p n) :
     let q := addPadding p n
@@ -26,28 +442,40 @@ theorem sr_pad_transparent {ε : Type} (p : Bytes) (n : Nat) (h : Sr.parse p = .
     (Sr.rtp q : R ε UInt32) = Sr.rtp p ∧ (Sr.packetCount q : R ε UInt32) = Sr.packetCount p ∧
     (Sr.octetCount q : R ε UInt32) = Sr.octetCount p ∧ (Sr.nReports q : R ε UInt8) = Sr.nReports p ∧
     (Sr.reportBlocks q : R ε (List Bytes)) = Sr.reportBlocks p := by
-  sorry
+  intro q
+  have hw := ((sr_parse_ok_iff p p).mp h).2.1
+  have h4 := ((wellFramed_iff 28 200 p).mp hw).2.1
+  exact sr_pad (facts p n h4 hn) h
 
 theorem rr_pad_transparent {ε : Type} (p : Bytes) (n : Nat) (h : Rr.parse p = .ok p) (hn : PadOk p n) :
     let q := addPadding p n
     Rr.parse q = .ok q ∧ (Rr.padding q : R ε (Option UInt8)) = .ok (some n.toUInt8) ∧
     (Rr.ssrc q : R ε UInt32) = Rr.ssrc p ∧ (Rr.nReports q : R ε UInt8) = Rr.nReports p ∧
     (Rr.reportBlocks q : R ε (List Bytes)) = Rr.reportBlocks p := by
-  sorry
+  intro q
+  have hw := ((rr_parse_ok_iff p p).mp h).2.1
+  have h4 := ((wellFramed_iff 8 201 p).mp hw).2.1
+  exact rr_pad (facts p n h4 hn) h
 
 theorem bye_pad_transparent {ε : Type} (p : Bytes) (n : Nat) (h : Bye.parse p = .ok p) (hn : PadOk p n) :
     let q := addPadding p n
     Bye.parse q = .ok q ∧ (Bye.padding q : R ε (Option UInt8)) = .ok (some n.toUInt8) ∧
     (Bye.ssrcs q : R ε (List UInt32)) = Bye.ssrcs p ∧
     (Bye.reason q : R ε (Option Slice)) = Bye.reason p := by
-  sorry
+  intro q
+  have hw := ((bye_parse_ok_iff p p).mp h).2.1
+  have h4 := ((wellFramed_iff 4 203 p).mp hw).2.1
+  exact bye_pad (facts p n h4 hn) h
 
 theorem app_pad_transparent {ε : Type} (p : Bytes) (n : Nat) (h : App.parse p = .ok p) (hn : PadOk p n) :
     let q := addPadding p n
     App.parse q = .ok q ∧ (App.padding q : R ε (Option UInt8)) = .ok (some n.toUInt8) ∧
     (App.ssrc q : R ε UInt32) = App.ssrc p ∧ (hCount q : R ε UInt8) = hCount p ∧
     (App.name q : R ε Bytes) = App.name p ∧ (App.data q : R ε Slice) = App.data p := by
-  sorry
+  intro q
+  have hw := ((app_parse_ok_iff p p).mp h).2.1
+  have h4 := ((wellFramed_iff 12 204 p).mp hw).2.1
+  exact app_pad (facts p n h4 hn) h
 
 theorem fb_pad_transparent {ε : Type} (k : FbKind) (p : Bytes) (n : Nat) (h : Fb.parse k p = .ok p)
     (hn : PadOk p n) :
@@ -56,20 +484,29 @@ theorem fb_pad_transparent {ε : Type} (k : FbKind) (p : Bytes) (n : Nat) (h : F
     (Fb.senderSsrc q : R ε UInt32) = Fb.senderSsrc p ∧ (Fb.mediaSsrc q : R ε UInt32) = Fb.mediaSsrc p ∧
     (hCount q : R ε UInt8) = hCount p ∧
     (∀ f : Fb.FciType, Fb.parseFci k f q = Fb.parseFci k f p) := by
-  sorry
+  intro q
+  have hw := ((fb_parse_ok_iff k p p).mp h).2.1
+  have h4 := ((wellFramed_iff 12 k.pt p).mp hw).2.1
+  exact fb_pad (facts p n h4 hn) k h
 
 theorem sdes_pad_transparent {ε : Type} (p : Bytes) (n : Nat) (v : Sdes) (h : Sdes.parse p = .ok v)
     (hn : PadOk p n) :
     let q := addPadding p n
     ∃ v', Sdes.parse q = .ok v' ∧ v'.data = q ∧ v'.chunks = v.chunks ∧
       (Sdes.padding v' : R ε (Option UInt8)) = .ok (some n.toUInt8) := by
-  sorry
+  intro q
+  have hw := (sdes_parse_accepts p v h).2.1
+  have h4 := ((wellFramed_iff 4 202 p).mp hw).2.1
+  exact sdes_pad (facts p n h4 hn) v h
 
 theorem custom_pad_transparent {ε : Type} (pt : UInt8) (min : Nat) (h4 : 4 ≤ min) (p : Bytes) (n : Nat)
     (h : Custom.parse pt min p = .ok p) (hn : PadOk p n) :
     let q := addPadding p n
     Custom.parse pt min q = .ok q ∧ (Custom.padding q : R ε (Option UInt8)) = .ok (some n.toUInt8) ∧
     (Custom.body q : R ε Slice) = Custom.body p := by
-  sorry
+  intro q
+  have hw := ((custom_parse_ok_iff pt min h4 p p).mp h).2.1
+  have hl4 := ((wellFramed_iff min pt p).mp hw).2.1
+  exact custom_pad (facts p n hl4 hn) pt min h4 h
 
 end Rtcp.Proofs
